@@ -264,6 +264,20 @@ func (fr *frame) applyCall(cc *ssa.CallCommon, st *bstate, site ssa.Instruction,
 		} else {
 			name = "dyn:" + valueLabel(cc.Value)
 			spec, pnames = fr.callSpecFor(cc)
+			// sweep kind "unlockedcallbacks": a function value that is not one of this function's own
+			// closures (a user's handler, filter, middleware, hook) is called with none of the
+			// module's locks held: user code may call back into the registry or block
+			if f.sweep["unlockedcallbacks"] && !f.dry {
+				libFunc := false
+				if n, ok := cc.Value.Type().(*types.Named); ok && n.Obj().Pkg() != nil && !inModule(n.Obj().Pkg()) {
+					libFunc = true // e.g. context.CancelFunc: library code, not a user callback
+				}
+				if _, own := f.closures[fv.Tm]; !own && !libFunc {
+					lk := f.ghostKey("lockheld", sortInt, true, sortInt)
+					f.oblige(st, fmt.Sprintf("%s#no-lock-held-while-user-code-runs:%s", fnShortName(fr.fn), valueLabel(cc.Value)), "safety", f.sweepTags,
+						eq(f.hs.read(st.heap, lk), "((as const (Array Int Int)) 0)"), "a callback is invoked while a lock is held", posStr(f.e.fset, pos))
+				}
+			}
 			if os.Getenv("GOVC_DEBUGCALLS") != "" {
 				fmt.Fprintf(os.Stderr, "dyncall in %s: %s type %s spec=%v\n", fr.fn.Name(), name, cc.Value.Type(), spec != nil)
 			}
